@@ -44,17 +44,25 @@ from kernpy.core.tokens import (TokenCategory, Subtoken, NoteRestToken, ChordTok
                                 BoundingBoxToken, MHXMToken, BarToken, ClefToken, SpineOperationToken, MetacommentToken, FieldCommentToken)
 
 
+SUB_CORPUS = {TokenCategory.DURATION: ['4', '.', '8', '16', 'q', '2', '3%2'], TokenCategory.PITCH: ['c', 'cc', 'C', 'DD', 'b', 'g', 'eee'],
+              TokenCategory.ALTERATION: ['#', '-', 'n', '##', '#X', '-y'], TokenCategory.REST: ['r'],
+              TokenCategory.DECORATION: ['L', 'J', '_', '[', ']', '(', ')', ';', "'", '^', '~', 'T', '/', 'k'], None: ['x', 'ab']}
+
+
 def mk_subtoken(e, cats, corpus):
-    enc = e.str_sym('encoding', corpus)
     cat = e.enum_in('category', TokenCategory, cats)
+    enc = e.str_for('encoding', cat, SUB_CORPUS)
     e.assume(len(enc) > 0)
     return e.new(Subtoken, {'encoding': enc, 'category': cat}, (enc, cat))
 
 
 def pd_pair_ok(a, b):
     # a rest has duration marks and the rest sign only: no pitch letters, no accidental next to a rest sign
-    return conj(implies(a.category == TokenCategory.REST, disj(b.category == TokenCategory.DURATION, b.category == TokenCategory.REST)),
-                implies(b.category == TokenCategory.REST, disj(a.category == TokenCategory.DURATION, a.category == TokenCategory.REST)))
+    # and at most one pitch-letters part, one accidental part, one rest sign
+    return conj(implies(a.category == TokenCategory.REST, b.category == TokenCategory.DURATION),
+                implies(b.category == TokenCategory.REST, a.category == TokenCategory.DURATION),
+                disj(a.category != TokenCategory.PITCH, b.category != TokenCategory.PITCH),
+                disj(a.category != TokenCategory.ALTERATION, b.category != TokenCategory.ALTERATION))
 
 
 def mk_note(g, name='tok'):
@@ -139,3 +147,52 @@ def mk_any_token(g, kind, name='tok'):
     if kind == 'compound':
         return mk_compound(g, name)
     return mk_simple_like(g, kind, name)
+
+
+HEADER_TYPES = ['kern', 'mens', 'text', 'harm', 'mxhm', 'root', 'dyn', 'dynam', 'fing', 'silbe']
+
+
+def mk_header_token(g, name='hdr', types=None):
+    enc = '**' + g.choice(name + '.type', types or ['kern', 'silbe'])
+    sid = g.int(name + '.spine_id', 0)
+    return g.new(HeaderToken, {'encoding': enc, 'category': TokenCategory.HEADER, 'hidden': False, 'spine_id': sid}, (enc, sid))
+
+
+from kernpy.core.document import Node, SignatureNodes
+from kernpy.core.exporter import ExportOptions, Exporter
+from kernpy.core.tokenizers import Encoding
+
+HEADER_UNIVERSE = ['**' + t for t in HEADER_TYPES]
+
+
+def mk_signature_nodes(g, nodes):
+    sn = g.new(SignatureNodes, {'nodes': nodes}, ())
+    if not hasattr(sn, 'fields'):
+        sn.nodes = nodes
+    return sn
+
+
+def mk_node(g, token, header_node, clef_node=None, stage=3):
+    """a tree node as Importer.run leaves it: token, header node of its spine, last clef in force (or none)"""
+    sigs = mk_signature_nodes(g, {'ClefToken': clef_node} if clef_node is not None else {})
+    n = g.new(Node, {'id': 1, 'token': token, 'parent': None, 'children': [], 'stage': stage, 'header_node': header_node,
+                     'last_signature_nodes': sigs, 'last_spine_operator_node': None}, None)
+    if not hasattr(n, 'fields'):
+        n.id, n.token, n.parent, n.children, n.stage, n.header_node = 1, token, None, [], stage, header_node
+        n.last_signature_nodes, n.last_spine_operator_node = sigs, None
+    return n
+
+
+def mk_options(g, encoding=None):
+    """ExportOptions with symbolic selections: spine types as a subset of the header universe, spine ids None or an arbitrary
+    collection of ints, categories a symbolic set (as list or set), encoding symbolic"""
+    types = g.str_subset('spine_types', HEADER_UNIVERSE)
+    ids = None if g.choice('spine_ids.none', [True, False]) else g.int_set('spine_ids')
+    cats = g.enum_set('cats', TokenCategory)
+    enc = g.enum('encoding', Encoding) if encoding is None else encoding
+    o = g.new(ExportOptions, {'spine_types': types, 'from_measure': None, 'to_measure': None, 'token_categories': cats, 'kern_type': enc,
+                              'instruments': None, 'show_measure_numbers': False, 'spine_ids': ids}, None)
+    if not hasattr(o, 'fields'):
+        o.spine_types, o.from_measure, o.to_measure, o.token_categories, o.kern_type = types, None, None, cats, enc
+        o.instruments, o.show_measure_numbers, o.spine_ids = None, False, ids
+    return o
